@@ -49,8 +49,8 @@ Qed.
 
 Lemma waiting_not_completed s x j : RInvX s x → ∀ id, rs_jobs s !! id = Some j → r_is_waiting j = true → r_completed j = false.
 Proof.
-  intros Hinv id Hj [Hst _]%waiting_inv. destruct (r_completed j) eqn:E; [|done].
-  destruct (inv_comp _ _ Hinv id j Hj E) as [? ?]. congruence.
+  intros Hinv id Hj Hw. destruct (r_completed j) eqn:E; [|done].
+  pose proof (inv_comp _ _ Hinv id j Hj E). congruence.
 Qed.
 
 (** the dequeue loop on [q] changes the count of [p] only by starting jobs while the count is below the limit *)
@@ -84,6 +84,36 @@ Proof.
     destruct IH as [IH|(_ & Hgt & Hle)].
     + split; [lia|]. rewrite Hconc, IH, Hinc. unfold conc_of. lia.
     + split; [lia|]. done.
+Qed.
+
+(** defs are changed by reload only *)
+Lemma try_start_defs s id : rs_defs (r_try_start s id).1 = rs_defs s.
+Proof. by destruct (try_start_frame s id) as (_ & -> & _). Qed.
+
+Lemma dequeue_loop_defs fuel s p : rs_defs (r_dequeue_loop fuel s p) = rs_defs s.
+Proof.
+  revert s. induction fuel as [|x fuel IH]; intros s; simpl; [done|].
+  destruct (wl_get (rs_wait s) p) as [|h rest]; [done|]. destruct (rs_jobs s !! h) as [j|]; [|done].
+  destruct (bool_decide _ && _); [|done]. rewrite IH. by rewrite try_start_defs.
+Qed.
+
+Lemma schedule_defs s p0 gok sn : rs_defs (r_schedule s p0 gok sn).1 = rs_defs s.
+Proof.
+  unfold r_schedule. destruct (rs_shut s); [done|]. destruct (lookup_def (rs_defs s) p0) as [d|]; [|done].
+  destruct (r_resolve_action s p0 false); try done; cbn [fst].
+  - unfold r_start_job. destruct (r_try_start _ (length (rs_jobs s))) as [s2 failed] eqn:Hts.
+    pose proof (try_start_defs (r_set_jobs s (rs_jobs s ++ [r_new_job s p0 d gok sn])) (length (rs_jobs s))) as Hd2.
+    rewrite Hts in Hd2. simpl in Hd2.
+    destruct failed; [|done]. unfold r_dequeue. by rewrite dequeue_loop_defs.
+  - by destruct (last _).
+Qed.
+
+Lemma cancel_defs s id : rs_defs (r_cancel s id).1 = rs_defs s.
+Proof.
+  unfold r_cancel. destruct (r_find s id) as [j|]; [|done]. destruct (r_canceled j); [done|].
+  destruct (r_completed j); [done|]. destruct (r_start j); cbn [fst].
+  - by destruct (r_live j).
+  - unfold r_dequeue. by rewrite dequeue_loop_defs.
 Qed.
 
 (** ** C01: the running count grows only up to the concurrency limit in force *)
@@ -231,9 +261,63 @@ Proof.
   destruct (r_removed j); intros [= <-]; [by left|]. by apply dequeue_count_ok.
 Qed.
 
+Lemma imap_count_le (f : nat → rjob → rjob) l p :
+  (∀ i j, rcounts p (f i j) = true → rcounts p j = true) →
+  (length (List.filter (rcounts p) (imap f l)) <= length (List.filter (rcounts p) l))%nat.
+Proof.
+  revert f. induction l as [|x l IH]; intros f Hf; simpl; [done|].
+  specialize (IH (f ∘ S)). simpl in IH. specialize (Hf 0%nat x) as Hx.
+  assert (IH' := IH (fun i j => Hf (S i) j)).
+  destruct (rcounts p (f 0%nat x)) eqn:E1; destruct (rcounts p x) eqn:E2; simpl; try lia; specialize (Hx eq_refl); done.
+Qed.
+
+Lemma save_count_ok s rm p : count_ok s (r_save s rm) p.
+Proof.
+  left. rewrite !r_running_count_eq. unfold r_save. simpl. apply imap_count_le.
+  intros i j. destruct (in_ids i rm); [|done]. unfold rcounts. simpl. by rewrite andb_false_r.
+Qed.
+
+Lemma restart_count_ok s js s' p : r_restart s js = Some s' → count_ok s s' p.
+Proof.
+  unfold r_restart. destruct (forallb _ js) eqn:H; [|done]. intros [= <-]. left.
+  rewrite !r_running_count_eq. simpl.
+  assert (Hz : length (List.filter (rcounts p) js) = 0%nat); [|lia].
+  rewrite forallb_forall in H. induction js as [|j js IH]; simpl; [done|].
+  assert (Hj : r_terminal (rs_now s) j = true) by (apply H; by left).
+  apply terminal_spec in Hj as (Hr & _). unfold rcounts. rewrite Hr, andb_false_r. apply IH. intros x Hx. apply H. by right.
+Qed.
+
+Lemma shutdown_count_ok s p : RInv s → count_ok s (r_shutdown s) p.
+Proof.
+  intros Hinv. left. rewrite !r_running_count_eq. unfold r_shutdown. simpl. apply imap_count_le.
+  intros i j. destruct (in_ids i _); [|done]. unfold rcounts, r_is_running. simpl. destruct (r_start j); by rewrite ?andb_false_r.
+Qed.
+
+Lemma cancel_all_defs s : rs_defs (r_cancel_all s) = rs_defs s.
+Proof.
+  unfold r_cancel_all. generalize (seq 0 (length (rs_jobs s))). intros l. revert s.
+  induction l as [|id l IH]; intros s; simpl; [done|]. rewrite IH. apply cancel_defs.
+Qed.
+
+Lemma cancel_all_count_ok s p : RInv s → count_ok s (r_cancel_all s) p.
+Proof.
+  unfold r_cancel_all. generalize (seq 0 (length (rs_jobs s))). intros l.
+  assert (H : ∀ s0 s, RInv s → rs_defs s = rs_defs s0 → count_ok s0 s p →
+              count_ok s0 (fold_left (fun s id => (r_cancel s id).1) l s) p).
+  { induction l as [|id l IH]; intros s0 s1 Hinv Hd Hc; simpl; [done|].
+    apply IH; [by apply cancel_inv|by rewrite cancel_defs|].
+    destruct (cancel_count_ok s1 id p Hinv) as [H|H]; [|right; done].
+    destruct Hc as [Hc|Hc]; [left; lia|right]. unfold conc_of in *. rewrite cancel_defs. rewrite Hd in *. lia. }
+  intros Hinv. apply H; [done|done|by left].
+Qed.
+
 Theorem rstep_count_ok s e s' r p : RInv s → rstep s e = Some (s', r) → count_ok s s' p.
 Proof.
-  intros Hinv. destruct e as [p0 gok sn|id|d|id|ds|id ec]; simpl.
+  intros Hinv. destruct e as [rm|js| | |p0 gok sn|id|d|id|ds|id ec]; simpl.
+  - intros [= <- <-]. apply save_count_ok.
+  - destruct (r_restart s js) as [s1|] eqn:Hf; simpl; [|done]. intros [= <- <-]. by eapply restart_count_ok.
+  - intros [= <- <-]. by apply shutdown_count_ok.
+  - intros [= <- <-]. by apply cancel_all_count_ok.
   - intros [= Heq]. replace s' with (r_schedule s p0 gok sn).1 by (by rewrite Heq). by apply schedule_count_ok.
   - intros [= Heq]. replace s' with (r_cancel s id).1 by (by rewrite Heq). by apply cancel_count_ok.
   - intros [= <- <-]. by left.
@@ -242,39 +326,13 @@ Proof.
   - destruct (r_complete s id ec) as [s1|] eqn:Hf; simpl; [|done]. intros [= <- <-]. by eapply complete_count_ok.
 Qed.
 
-(** defs are changed by reload only *)
-Lemma try_start_defs s id : rs_defs (r_try_start s id).1 = rs_defs s.
-Proof. by destruct (try_start_frame s id) as (_ & -> & _). Qed.
-
-Lemma dequeue_loop_defs fuel s p : rs_defs (r_dequeue_loop fuel s p) = rs_defs s.
-Proof.
-  revert s. induction fuel as [|x fuel IH]; intros s; simpl; [done|].
-  destruct (wl_get (rs_wait s) p) as [|h rest]; [done|]. destruct (rs_jobs s !! h) as [j|]; [|done].
-  destruct (bool_decide _ && _); [|done]. rewrite IH. by rewrite try_start_defs.
-Qed.
-
-Lemma schedule_defs s p0 gok sn : rs_defs (r_schedule s p0 gok sn).1 = rs_defs s.
-Proof.
-  unfold r_schedule. destruct (rs_shut s); [done|]. destruct (lookup_def (rs_defs s) p0) as [d|]; [|done].
-  destruct (r_resolve_action s p0 false); try done; cbn [fst].
-  - unfold r_start_job. destruct (r_try_start _ (length (rs_jobs s))) as [s2 failed] eqn:Hts.
-    pose proof (try_start_defs (r_set_jobs s (rs_jobs s ++ [r_new_job s p0 d gok sn])) (length (rs_jobs s))) as Hd2.
-    rewrite Hts in Hd2. simpl in Hd2.
-    destruct failed; [|done]. unfold r_dequeue. by rewrite dequeue_loop_defs.
-  - by destruct (last _).
-Qed.
-
-Lemma cancel_defs s id : rs_defs (r_cancel s id).1 = rs_defs s.
-Proof.
-  unfold r_cancel. destruct (r_find s id) as [j|]; [|done]. destruct (r_canceled j); [done|].
-  destruct (r_completed j); [done|]. destruct (r_start j); cbn [fst].
-  - by destruct (r_live j).
-  - unfold r_dequeue. by rewrite dequeue_loop_defs.
-Qed.
-
 Lemma rstep_defs s e s' r : rstep s e = Some (s', r) → (∀ ds, e ≠ RvReload ds) → rs_defs s' = rs_defs s.
 Proof.
-  intros Hs Hnr. destruct e as [p0 gok sn|id|d|id|ds|id ec]; simpl in Hs.
+  intros Hs Hnr. destruct e as [rm|js| | |p0 gok sn|id|d|id|ds|id ec]; simpl in Hs.
+  - by injection Hs as <- _.
+  - unfold r_restart in Hs. destruct (forallb _ js); [|done]. by injection Hs as <- _.
+  - by injection Hs as <- _.
+  - injection Hs as <- _. apply cancel_all_defs.
   - injection Hs as Heq. replace s' with (r_schedule s p0 gok sn).1 by (by rewrite Heq). apply schedule_defs.
   - injection Hs as Heq. replace s' with (r_cancel s id).1 by (by rewrite Heq). apply cancel_defs.
   - by injection Hs as <- _.
@@ -425,19 +483,38 @@ Proof.
     apply upd_mono. intros j0 _. repeat split; simpl; auto.
 Qed.
 
-Lemma rstep_mono s e s' r : rstep s e = Some (s', r) → state_mono s s'.
+Lemma imap_mono s (f : nat → rjob → rjob) s' :
+  rs_jobs s' = imap f (rs_jobs s) → (∀ i j, job_mono j (f i j)) → state_mono s s'.
 Proof.
-  destruct e as [p gok sn|id|d|id|ds|id ec]; simpl.
-  - intros [= Heq]. replace s' with (r_schedule s p gok sn).1 by (by rewrite Heq). apply schedule_mono.
-  - intros [= Heq]. replace s' with (r_cancel s id).1 by (by rewrite Heq). apply cancel_mono.
-  - intros [= <- <-]. intros id' j Hj. exists j. split; [done|apply job_mono_refl].
-  - unfold r_fire. destruct (rs_jobs s !! id) as [j|]; [|done]. destruct (r_timer_due s j); [|done].
+  intros Hj Hf id j Hid. rewrite Hj, list_lookup_imap, Hid. simpl. exists (f id j). split; [done|apply Hf].
+Qed.
+
+Lemma cancel_all_mono s : state_mono s (r_cancel_all s).
+Proof.
+  unfold r_cancel_all. generalize (seq 0 (length (rs_jobs s))). intros l. revert s.
+  induction l as [|id l IH]; intros s; simpl; [apply state_mono_refl|].
+  eapply state_mono_trans; [apply cancel_mono|apply IH].
+Qed.
+
+Lemma rstep_mono s e s' r : rstep s e = Some (s', r) → (∀ js, e ≠ RvRestart js) → state_mono s s'.
+Proof.
+  intros Hs Hnr. destruct e as [rm|js| | |p gok sn|id|d|id|ds|id ec]; simpl in Hs.
+  - injection Hs as <- _. eapply (imap_mono s (fun i j => if in_ids i rm then r_remove j else j)); [done|].
+    intros i j. destruct (in_ids i rm); [repeat split; simpl; auto|apply job_mono_refl].
+  - by destruct (Hnr js).
+  - injection Hs as <- _. eapply (imap_mono s (fun i j => if in_ids i (wl_get (rs_wait s) (r_pipe j)) then r_set_canceled j else j)); [done|].
+    intros i j. destruct (in_ids i _); [repeat split; simpl; auto|apply job_mono_refl].
+  - injection Hs as <- _. apply cancel_all_mono.
+  - injection Hs as Heq. replace s' with (r_schedule s p gok sn).1 by (by rewrite Heq). apply schedule_mono.
+  - injection Hs as Heq. replace s' with (r_cancel s id).1 by (by rewrite Heq). apply cancel_mono.
+  - injection Hs as <- _. intros id' j Hj. exists j. split; [done|apply job_mono_refl].
+  - revert Hs. unfold r_fire. destruct (rs_jobs s !! id) as [j|]; [|done]. destruct (r_timer_due s j); [|done].
     assert (Hu : state_mono s (r_upd s id r_clear_timer)) by (apply upd_mono; intros j0 _; repeat split; simpl; auto).
     destruct (r_find s id); simpl.
     + destruct (r_canceled j); intros [= <- <-]; [done|]. eapply state_mono_trans; [exact Hu|apply dequeue_loop_mono].
     + by intros [= <- <-].
-  - intros [= <- <-]. intros id' j Hj. exists j. split; [done|apply job_mono_refl].
-  - unfold r_complete. destruct (rs_jobs s !! id) as [j|]; [|done]. destruct (r_live j); [|done].
+  - injection Hs as <- _. intros id' j Hj. exists j. split; [done|apply job_mono_refl].
+  - revert Hs. unfold r_complete. destruct (rs_jobs s !! id) as [j|]; [|done]. destruct (r_live j); [|done].
     assert (Hu : state_mono s (r_upd s id (r_complete_job (rs_now s) ec))).
     { apply upd_mono. intros j0 _. repeat split; simpl; auto. intros ->. done. }
     destruct (r_removed j); intros [= <- <-]; [done|]. eapply state_mono_trans; [exact Hu|apply dequeue_loop_mono].
@@ -533,13 +610,59 @@ Proof. by destruct (try_start_frame s id) as (-> & _). Qed.
 Lemma filter_length_le {A} (P : A → bool) (l : list A) : (length (List.filter P l) <= length l)%nat.
 Proof. induction l as [|x l IH]; simpl; [done|]. destruct (P x); simpl; lia. Qed.
 
+Lemma cancel_wl_len s id q : RInv s → (length (wl_get (rs_wait (r_cancel s id).1) q) <= length (wl_get (rs_wait s) q))%nat.
+Proof.
+  intros Hinv.
+  pose proof (cancel_inv s id Hinv) as Hinv'.
+  unfold r_cancel in *. destruct (r_find s id) as [j|] eqn:Hf; [|done].
+  destruct (r_canceled j) eqn:Hcan; [done|]. destruct (r_completed j) eqn:Hcomp; [done|].
+  destruct (r_start j) eqn:Hst; cbn [fst] in *.
+  + by destruct (r_live j).
+  + (* the intermediate state satisfies the invariant, see cancel_count_ok; here only lengths matter *)
+    set (s2 := r_set_wait (r_upd s id r_cancel_notimer) (r_pipe j) (remove_id id (wl_get (rs_wait (r_upd s id r_cancel_notimer)) (r_pipe j)))) in *.
+    assert (Hlen2 : (length (wl_get (rs_wait s2) q) <= length (wl_get (rs_wait s) q))%nat).
+    { subst s2. simpl. destruct (decide (q = r_pipe j)) as [->|Hne].
+      - rewrite wl_get_set_eq. apply filter_length_le.
+      - by rewrite wl_get_set_ne. }
+    assert (Hinv2 : RInv s2).
+    { apply r_find_Some in Hf as [Hj Hr].
+      assert (Hw : r_is_waiting j = true) by (apply waiting_inv; done).
+      assert (Hnw : r_is_waiting (r_cancel_notimer j) = false) by (unfold r_is_waiting; simpl; by rewrite Hst).
+      subst s2. change (rs_wait (r_upd s id r_cancel_notimer)) with (rs_wait s).
+      change (r_set_wait (r_upd s id r_cancel_notimer) (r_pipe j) (remove_id id (wl_get (rs_wait s) (r_pipe j))))
+        with (r_upd (r_set_wait s (r_pipe j) (remove_id id (wl_get (rs_wait s) (r_pipe j)))) id r_cancel_notimer).
+      assert (Hinv1 : RInvX (r_set_wait s (r_pipe j) (remove_id id (wl_get (rs_wait s) (r_pipe j)))) (Some id)).
+      { eapply set_wait_inv; [exact Hinv| | | | |].
+        - apply StronglySorted_filter. apply (inv_sorted _ _ Hinv).
+        - intros i Hi. left. by apply elem_of_remove_id in Hi as [? _].
+        - intros i Hi. destruct (decide (i = id)) as [->|Hne]; [by right|left]. by apply elem_of_remove_id.
+        - done.
+        - intros i [= <-]. split.
+          + intros Hi. by apply elem_of_remove_id in Hi as [_ ?].
+          + right. right. by rewrite Hj. }
+      eapply (upd_inv _ (Some id) None id j); [exact Hinv1|exact Hj|..]; try done.
+      all: try (simpl; rewrite ?Hst, ?Hcomp; done).
+      all: try (simpl; intros Hl; destruct (inv_live _ _ Hinv id j Hj Hl) as ([? ?] & _); congruence).
+      all: try by rewrite Hnw.
+      + simpl. rewrite wl_get_set_eq. intros Hi. by apply elem_of_remove_id in Hi as [_ ?].
+      + right. done. }
+    etrans; [by apply dequeue_wl_len|done].
+Qed.
+
 Lemma rstep_wl_growth s e s' r q :
   RInv s → rstep s e = Some (s', r) →
   (length (wl_get (rs_wait s') q) <= length (wl_get (rs_wait s) q))%nat
   ∨ (∃ gok sn, e = RvSchedule q gok sn ∧ rs_shut s = false ∧ r_resolve_action s q false = AQueue
             ∧ wl_get (rs_wait s') q = wl_get (rs_wait s) q ++ [length (rs_jobs s)]).
 Proof.
-  intros Hinv. destruct e as [p gok sn|id|d|id|ds|id ec]; simpl.
+  intros Hinv. destruct e as [rm|js| | |p gok sn|id|d|id|ds|id ec]; simpl.
+  - intros [= <- <-]. left. rewrite save_wait. apply filter_length_le.
+  - unfold r_restart. destruct (forallb _ js); [|done]. simpl. intros [= <- <-]. left. simpl. lia.
+  - intros [= <- <-]. left. simpl. lia.
+  - intros [= <- <-]. left. unfold r_cancel_all. generalize (seq 0 (length (rs_jobs s))). intros l.
+    assert (H : ∀ s1, RInv s1 → (length (wl_get (rs_wait (fold_left (fun s id => (r_cancel s id).1) l s1)) q) <= length (wl_get (rs_wait s1) q))%nat).
+    { induction l as [|id l IH]; intros s1 Hinv1; simpl; [done|]. etrans; [apply IH; by apply cancel_inv|by apply cancel_wl_len]. }
+    by apply H.
   - intros [= Heq]. assert (Hs' : s' = (r_schedule s p gok sn).1) by (by rewrite Heq). clear Heq. subst s'.
     unfold r_schedule. destruct (rs_shut s) eqn:Hshut; [by left|].
     destruct (lookup_def (rs_defs s) p) as [d|] eqn:Hd; [|by left].
@@ -563,41 +686,7 @@ Proof.
       destruct (decide (q = p)) as [->|Hne].
       * simpl. rewrite wl_get_set_eq. rewrite (last_removelast _ _ Hl) at 2. by rewrite !app_length.
       * simpl. by rewrite wl_get_set_ne.
-  - intros [= Heq]. assert (Hs' : s' = (r_cancel s id).1) by (by rewrite Heq). clear Heq. subst s'. left.
-    pose proof (cancel_inv s id Hinv) as Hinv'.
-    unfold r_cancel in *. destruct (r_find s id) as [j|] eqn:Hf; [|done].
-    destruct (r_canceled j) eqn:Hcan; [done|]. destruct (r_completed j) eqn:Hcomp; [done|].
-    destruct (r_start j) eqn:Hst; cbn [fst] in *.
-    + by destruct (r_live j).
-    + (* the intermediate state satisfies the invariant, see cancel_count_ok; here only lengths matter *)
-      set (s2 := r_set_wait (r_upd s id r_cancel_notimer) (r_pipe j) (remove_id id (wl_get (rs_wait (r_upd s id r_cancel_notimer)) (r_pipe j)))) in *.
-      assert (Hlen2 : (length (wl_get (rs_wait s2) q) <= length (wl_get (rs_wait s) q))%nat).
-      { subst s2. simpl. destruct (decide (q = r_pipe j)) as [->|Hne].
-        - rewrite wl_get_set_eq. apply filter_length_le.
-        - by rewrite wl_get_set_ne. }
-      assert (Hinv2 : RInv s2).
-      { apply r_find_Some in Hf as [Hj Hr].
-        assert (Hw : r_is_waiting j = true) by (apply waiting_inv; done).
-        assert (Hnw : r_is_waiting (r_cancel_notimer j) = false) by (unfold r_is_waiting; simpl; by rewrite Hst).
-        subst s2. change (rs_wait (r_upd s id r_cancel_notimer)) with (rs_wait s).
-        change (r_set_wait (r_upd s id r_cancel_notimer) (r_pipe j) (remove_id id (wl_get (rs_wait s) (r_pipe j))))
-          with (r_upd (r_set_wait s (r_pipe j) (remove_id id (wl_get (rs_wait s) (r_pipe j)))) id r_cancel_notimer).
-        assert (Hinv1 : RInvX (r_set_wait s (r_pipe j) (remove_id id (wl_get (rs_wait s) (r_pipe j)))) (Some id)).
-        { eapply set_wait_inv; [exact Hinv| | | | |].
-          - apply StronglySorted_filter. apply (inv_sorted _ _ Hinv).
-          - intros i Hi. left. by apply elem_of_remove_id in Hi as [? _].
-          - intros i Hi. destruct (decide (i = id)) as [->|Hne]; [by right|left]. by apply elem_of_remove_id.
-          - done.
-          - intros i [= <-]. split.
-            + intros Hi. by apply elem_of_remove_id in Hi as [_ ?].
-            + right. right. by rewrite Hj. }
-        eapply (upd_inv _ (Some id) None id j); [exact Hinv1|exact Hj|..]; try done.
-        all: try (simpl; rewrite ?Hst, ?Hcomp; done).
-        all: try (simpl; intros Hl; destruct (inv_live _ _ Hinv id j Hj Hl) as ([? ?] & _); congruence).
-        all: try by rewrite Hnw.
-        + simpl. rewrite wl_get_set_eq. intros Hi. by apply elem_of_remove_id in Hi as [_ ?].
-        + right. done. }
-      etrans; [by apply dequeue_wl_len|done].
+  - intros [= Heq]. assert (Hs' : s' = (r_cancel s id).1) by (by rewrite Heq). clear Heq. subst s'. left. by apply cancel_wl_len.
   - intros [= <- <-]. by left.
   - unfold r_fire. destruct (rs_jobs s !! id) as [j|] eqn:Hj; [|done]. destruct (r_timer_due s j) eqn:Hdue; [|done].
     assert (Hinv1 : RInv (r_upd s id r_clear_timer)).
